@@ -170,7 +170,6 @@ func main() {
 	}
 	// the pools also hold a sample of Select.tla's statement forms
 	run.Extra["model_statements_in_pools"] = gram.ExportForms(run)
-	defer os.Remove(os.Getenv("VERIF_EXTRA_STMTS"))
 	_, bad := stmts.Pools()
 	for i, b := range bad {
 		text := b.SQL
